@@ -23,6 +23,7 @@ func scenC07(k *K) {
 	n := k.C.Range(1, 3)
 	c := k.NewCluster(ClusterCfg{N: n, Type: "docstore"})
 	k.F = swarmFaults(k, true)
+	c.FetchFailures()
 	nkeys := k.C.Range(2, len(c07Keys))
 	nops := k.C.Range(3, 14)
 	if Tier == "thorough" {
